@@ -2,16 +2,17 @@
 """Run the baseline tests of given /repo packages (guard OFF) and compare with BASELINE.json stable_pass.
 usage: basecheck.py [pkgdir ...]   (relative to /repo, e.g. pkg/router). No args = whole repo."""
 import json, subprocess, sys, os
-base = json.load(open('/root/.vp/BASELINE.json'))
+base = json.load(open("/root/.vp/BASELINE.json"))
+REPO = os.environ.get("VERIF_REPO", "/repo")
 stable = set(base['stable_pass'])
 pkgs = sys.argv[1:] or ['./...']
 env = dict(os.environ, GOFLAGS='-mod=mod', GOPROXY='off', GOSUMDB='off')
 bad = 0
 for p in pkgs:
-    mod = '/repo'
+    mod = REPO
     target = p if p.startswith('./') else './' + p.rstrip('/')
     if p.startswith('pkg/networkextention'):
-        mod = '/repo/pkg/networkextention'; target = './...'
+        mod = REPO + '/pkg/networkextention'; target = './...'
     pr = subprocess.run(['go', 'test', '-json', '-vet=off', '-count=1', '-timeout', '25m', target], cwd=mod, env=env,
                         capture_output=True, text=True)
     res = {}
